@@ -32,7 +32,8 @@ class Undecided(Exception):
     """a lazily mapped item could not be evaluated to a single outcome"""
 
 
-_CUR = [None]      # the interpreter on whose behalf the collection model is currently answering
+import absint as _absint
+_CUR = _absint.CURRENT      # the interpreter on whose behalf the collection model is currently answering (set by the interpreter itself)
 
 
 class LazyItems:
@@ -498,6 +499,22 @@ def _coll_oracle(interp, env, f, args, t, bb, path):
             return unit
         if k == "alloc::vec::Vec::clear":
             view_set(interp, v0, [])
+            return unit
+        if k == "alloc::vec::Vec::resize" and len(args) == 3 and isinstance(args[1], int) and not isinstance(args[1], bool):
+            n_ = args[1]
+            fill_ = load(interp, env, args[2]) if isinstance(args[2], Ref) else args[2]
+            view_set(interp, v0, items[:n_] + [fill_] * max(0, n_ - len(items)))
+            return unit
+        if k == "alloc::vec::Vec::resize_with" and len(args) == 3 and isinstance(args[1], int) and not isinstance(args[1], bool):
+            n_ = args[1]
+            new_ = list(items[:n_])
+            for _ in range(max(0, n_ - len(items))):
+                r_ = _call1(interp, args[2], [])
+                if r_ is None:
+                    return TOP
+                new_.append(r_)
+                items = list(view_get(interp, v0))      # (the closure may have advanced other model state, not this vector)
+            view_set(interp, v0, new_)
             return unit
         if k == "alloc::vec::Vec::extend_from_slice":
             src = load(interp, env, args[1])
